@@ -195,7 +195,14 @@ pub fn gen_lexicon(rng: &mut Rng, n_ids: usize, size: usize, extreme_cost: bool,
         for _ in 0..extra {
             let nparts = rng.range(2, 3);
             let parts: Vec<usize> = (0..nparts).map(|_| rng.below(rows.len())).collect();
-            let surface: String = parts.iter().map(|&i| rows[i].surface.clone()).collect();
+            let mut surface: String = parts.iter().map(|&i| rows[i].surface.clone()).collect();
+            // one declaration in five is ill-formed: the units are together SHORTER (the key has a tail no unit covers) or
+            // LONGER than the key; the analysis must still partition the text (last unit ends with the word, units are clamped)
+            match rng.below(10) {
+                0 => surface.push_str(&rand_word(rng, &pool, 2)),
+                1 => { if surface.chars().count() > 1 { surface.pop(); } }
+                _ => {}
+            }
             let mut row = Row::simple(&surface, id(rng), id(rng), cost(rng), rng.below(pos.len()));
             let ids = join(parts.iter(), "/");
             match rng.below(3) {
